@@ -15,7 +15,7 @@ Proof. exact tag_ids. Qed.
    value the format assigns to the tree (big-endian, signed, lists in order, compounds by key - last
    duplicate wins), the root name, and exactly the document's bytes are consumed. *)
 Theorem C01_decode_any : forall f name t rest fuel,
-  wf t -> name_ok name = true -> (length (payload t) < fuel)%nat ->
+  wf t -> nest_ok t -> name_ok name = true -> (length (payload t) < fuel)%nat ->
   run_flat (Decode f (dec_any fuel)) (doc f name t ++ rest) = FOk (root_name f name, value_of t) rest.
 Proof.
   intros. apply Decode_doc; auto with rb. now apply dec_any_conforms.
@@ -23,7 +23,7 @@ Qed.
 
 (* map[string]any destination (root compound) *)
 Theorem C01_decode_map : forall f name l rest fuel,
-  wf (TCompound l) -> name_ok name = true -> (length (payload (TCompound l)) < fuel)%nat ->
+  wf (TCompound l) -> nest_ok (TCompound l) -> name_ok name = true -> (length (payload (TCompound l)) < fuel)%nat ->
   run_flat (Decode f (dec_map fuel)) (doc f name (TCompound l) ++ rest)
   = FOk (root_name f name, value_of (TCompound l)) rest.
 Proof.
@@ -32,11 +32,11 @@ Qed.
 
 (* unknown fields are skipped with rawRead: exactly the skipped value is consumed, at any nesting *)
 Theorem C01_skip_exact : forall t rest fuel,
-  wf t -> (length (payload t) < fuel)%nat ->
+  wf t -> nest_ok t -> (length (payload t) < fuel)%nat ->
   run_flat (dec_skip fuel (tag_id t)) (payload t ++ rest) = FOk tt rest.
 Proof. intros. now apply dec_skip_conforms. Qed.
 Theorem C01_decode_skip : forall f name l rest fuel,
-  wf (TCompound l) -> name_ok name = true -> (length (payload (TCompound l)) < fuel)%nat ->
+  wf (TCompound l) -> nest_ok (TCompound l) -> name_ok name = true -> (length (payload (TCompound l)) < fuel)%nat ->
   run_flat (Decode f (dec_struct0 fuel)) (doc f name (TCompound l) ++ rest) = FOk (root_name f name, tt) rest.
 Proof.
   intros. apply Decode_doc; auto with rb. now apply (dec_skip_conforms (TCompound l)).
@@ -44,7 +44,7 @@ Qed.
 
 (* RawMessage: Type = the root id, Data = exactly the bytes of the textbook encoding *)
 Theorem C01_decode_raw : forall f name t rest fuel,
-  wf t -> name_ok name = true -> (length (payload t) < fuel)%nat ->
+  wf t -> nest_ok t -> name_ok name = true -> (length (payload t) < fuel)%nat ->
   run_flat (Decode f (dec_raw fuel)) (doc f name t ++ rest) = FOk (root_name f name, (tag_id t, payload t)) rest.
 Proof.
   intros. apply Decode_doc; auto with rb. now apply dec_raw_conforms.
@@ -52,7 +52,7 @@ Qed.
 
 (* dynbt.Value *)
 Theorem C01_decode_dyn : forall f name t rest fuel,
-  wf t -> name_ok name = true -> (length (payload t) < fuel)%nat ->
+  wf t -> nest_ok t -> name_ok name = true -> (length (payload t) < fuel)%nat ->
   run_flat (Decode f (dec_dyn fuel)) (doc f name t ++ rest) = FOk (root_name f name, dyn_of t) rest.
 Proof.
   intros. apply Decode_doc; auto with rb. now apply dec_dyn_conforms.
@@ -60,12 +60,12 @@ Qed.
 
 (* StringifiedMessage (binary -> text): succeeds and consumes exactly the document *)
 Theorem C01_decode_snbt : forall f name t rest fuel,
-  wf t -> name_ok name = true -> (length (payload t) < fuel)%nat ->
+  wf t -> nest_ok t -> name_ok name = true -> (length (payload t) < fuel)%nat ->
   run_flat (Decode f (dec_snbt fuel)) (doc f name t ++ rest) = FOk (root_name f name, tt) rest.
 Proof.
-  intros. apply Decode_doc; auto with rb. unfold dec_snbt.
-  pose proof (tag_id_range t). destruct (N.eqb_spec (tag_id t) idEnd) as [E|_].
-  - change idEnd with 0 in E. rewrite E in H2. destruct H2 as [H2 _]. now compute in H2.
+  intros f name t rest fuel W Hn Hname Hf. apply Decode_doc; auto with rb. unfold dec_snbt.
+  pose proof (tag_id_range t) as Hr. destruct (N.eqb_spec (tag_id t) idEnd) as [E|_].
+  - change idEnd with 0 in E. rewrite E in Hr. destruct Hr as [Hr _]. now compute in Hr.
   - now apply dec_text_conforms.
 Qed.
 
